@@ -16,7 +16,7 @@ import (
 )
 
 func init() {
-	report.Register("C02", report.Check{Level: "exploration", QuickBudget: 200 * time.Second, ThoroughBudget: 45 * time.Minute, Run: runC02})
+	report.Register("C02", report.Check{Level: "exploration", QuickBudget: 300 * time.Second, ThoroughBudget: 45 * time.Minute, Run: runC02})
 	explore.Register("C02.input", func(p string) explore.Harness {
 		return func(x *explore.X) {
 			b, _ := hex.DecodeString(p)
